@@ -1523,6 +1523,14 @@ int32 matrixUpdateSession(ssl_t *ssl)
         psUnlockMutex(&g_sessionTableLock);
         return PS_FAILURE;
     }
+    if (ssl->flags & SSL_FLAGS_RESUMED)
+    {
+        /* A session that resumed the entry has nothing to add to it; in
+           particular an unfinished resumption attempt (anybody can present
+           a session id) must not make the entry unusable for its owner */
+        psUnlockMutex(&g_sessionTableLock);
+        return PS_SUCCESS;
+    }
     Memcpy(g_sessionTable[i].masterSecret, ssl->sec.masterSecret,
         SSL_HS_MASTER_SIZE);
     /* Resumable only once this handshake has completed, i.e. the peer's
